@@ -1366,7 +1366,7 @@ def filter_to_namespace_qualifier(namespace_list: typing.List[str]) -> str:
     return "::".join(namespace_list) + "::"
 
 
-def filter_to_template_unique_name(base_token: str) -> str:
+def filter_to_template_unique_name(_: typing.Any, base_token: str) -> str:
     """
     Filter that takes a base token and forms a name that is very
     likely to be unique within the template the filter is invoked. This
@@ -1868,3 +1868,10 @@ def filter_block_comment(language: Language, text: str, style: str, indent: int 
         indent=indent,
         line_length=line_length,
     )
+
+
+# A unique name depends on how often the filter has been called since the last reset: the filter has to be evaluated every
+# time a template is rendered. A plain filter applied to a literal is evaluated once, when Jinja compiles the template.
+from nunavut._templates import template_volatile_filter  # noqa: E402  pylint: disable=wrong-import-position
+
+filter_to_template_unique_name = template_volatile_filter(filter_to_template_unique_name)
